@@ -4,8 +4,8 @@
    metastable lists of every length and for arbitrary rate functions (respecting equality of
    rationals); libm's sqrt is an arbitrary function except in the frame theorem. *)
 Require Import Cherab.Common.Qx.
-Require Import Cherab.Model.C05_BeamModels Cherab.Model.C05_Check Cherab.Model.C05_History.
-Require Import Cherab.Proofs.C05_Mean Cherab.Proofs.C05_Loops Cherab.Proofs.C05_Emission Cherab.Proofs.C05_Check Cherab.Proofs.C05_History.
+Require Import Cherab.Model.C05_BeamModels Cherab.Model.C05_Check Cherab.Model.C05_History Cherab.Model.C05_Mse.
+Require Import Cherab.Proofs.C05_Mean Cherab.Proofs.C05_Loops Cherab.Proofs.C05_Emission Cherab.Proofs.C05_Check Cherab.Proofs.C05_History Cherab.Proofs.C05_Mse.
 Open Scope Q_scope.
 
 (* q = (q1 + sum k_i q_i)/(1 + sum k_i), k_i >= 0: q lies between the smallest and the largest of
@@ -190,12 +190,49 @@ Theorem C05_sqrt_oracle_bound :
 Proof. exact sqrt_approx_spec. Qed.
 Print Assumptions C05_sqrt_oracle_bound.
 
+(* BeamEmissionLine: the nine Stark components the multiplet renders carry exactly the radiance it is given
+   (so the wavelength-integrated beam emission IS that radiance once each Gaussian integrates to 1, which is C02);
+   the sigma group (|k| <= 1) carries s/(1+s), the pi group 1/(1+s); components +k and -k are equal and none is
+   negative; nothing is rendered when the electron temperature or density is not positive *)
+Theorem C05_mse_components_sum_to_radiance :
+  forall radiance r,
+  ~ 1 + r_s2p r == 0 -> ~ r_s1s0 r + 1 == 0 -> ~ 1 + r_p2p3 r + r_p4p3 r == 0 ->
+  Qsum (map snd (mse_components radiance r)) == radiance /\
+  within 1 (mse_components radiance r) == r_s2p r / (1 + r_s2p r) * radiance /\
+  within 4 (mse_components radiance r) - within 1 (mse_components radiance r) == 1 / (1 + r_s2p r) * radiance.
+Proof. intros; split; [apply mse_total | apply mse_groups]; assumption. Qed.
+Print Assumptions C05_mse_components_sum_to_radiance.
+
+Theorem C05_mse_components_symmetric_nonnegative :
+  forall radiance r k q, In (k, q) (mse_components radiance r) ->
+  (exists q', In ((- k)%Z, q') (mse_components radiance r) /\ q' == q) /\
+  (0 <= radiance -> 0 <= r_s2p r -> 0 <= r_s1s0 r -> 0 <= r_p2p3 r -> 0 <= r_p4p3 r -> 0 <= q).
+Proof.
+  intros radiance r k q Hin; split; [apply (mse_symmetric radiance r k q Hin) | intros H0 H1 H2 H3 H4; exact (mse_nonneg radiance r k q H0 H1 H2 H3 H4 Hin)].
+Qed.
+Print Assumptions C05_mse_components_symmetric_nonnegative.
+
+Theorem C05_mse_guards :
+  forall te ne radiance r,
+  (te <= 0 \/ ne <= 0 -> mse_add_line te ne radiance r = []) /\
+  (0 < te -> 0 < ne -> mse_add_line te ne radiance r = mse_components radiance r).
+Proof. exact mse_guards. Qed.
+Print Assumptions C05_mse_guards.
+
+(* BeamEmissionLine.line accepts exactly Balmer-alpha of the hydrogen family *)
+Theorem C05_bes_line_policy :
+  forall is_none fam charge up lo,
+  bes_line_setter is_none fam charge up lo = Accepted <->
+  is_none = false /\ fam = true /\ charge = 0%Z /\ up = 3%Z /\ lo = 2%Z.
+Proof. exact bes_line_setter_accepts. Qed.
+Print Assumptions C05_bes_line_policy.
+
 (* the proviso of C05_history_independence is needed: with a table in which replacing an existing species does
    not clear the caches (kind 1), a two-evaluation history on a one-species plasma distinguishes the live
    BeamEmissionLine from a fresh one *)
 Definition ex_obj (n : Q) : sobj unit := mkSobj unit 1 1 (fun _ => (n, 10, (0, 0, 0))).
 Definition ex_prov : provider := mkProvider [] (fun _ _ _ _ _ _ => 0) (fun _ _ _ _ _ => 1).
-Definition ex_cfg : config unit := mkConfig unit [ex_obj 1] (fun _ => (0, 0, 1)) 1 0 ex_prov 2 1 4.
+Definition ex_cfg : config unit := mkConfig unit [ex_obj 1] (fun _ => (0, 0, 1)) 1 0 ex_prov 2 (fun _ => 1) 4.
 Definition ex_tbl (k : Z) : bool * bool := if (k =? 1)%Z then (false, false) else (true, true).
 Definition ex_evs : list (event unit) :=
   [ObserveBES unit tt 1 (0, 0, 3); Mutate unit (MAdd unit (ex_obj 2)); ObserveBES unit tt 1 (0, 0, 3)].
